@@ -22,6 +22,11 @@ class Plain(object):
         self.__dict__.update(kw)
 
 
+class Plain2(object):
+    def __init__(self, **kw):
+        self.__dict__.update(kw)
+
+
 class Unencodable(object):
     """jsonpickle cannot encode this (same idiom as the repository's own tests)."""
 
@@ -71,7 +76,8 @@ VALS = {
     'u5': lambda: ['u', 5], 'u6': lambda: ['u', 6],
     # arguments
     'x1': lambda: 1, 'x2': lambda: 2, 'xs': lambda: 'k', 'xd': lambda: {'b': 1, 'a': [2]}, 'xt': lambda: (1, 't'),
-    'xb': lambda: b'\x01', 'xn': lambda: None, 'xl': lambda: [1, 2],
+    'xb': lambda: b'\x01', 'xn': lambda: None, 'xl': lambda: [1, 2], 'xt2': lambda: (1, 2), 'xset': lambda: {1, 2},
+    'x1f': lambda: 1.0, 'xtrue': lambda: True, 'xo1': lambda: Plain(a=1), 'xo2': lambda: Plain2(a=1), 'vtl': lambda: ([1, 2], 3), 'vfl': lambda: (Plain(a=[1]), 'x'),
     'bad': lambda: Unencodable(),
 }
 
@@ -150,8 +156,9 @@ def _body(fname, args, kw, target):
     assert step['fn'] == fname, (step, fname)
     ent = {'fn': fname, 'args': args, 'kw': kw, 'mode': RT.mode, 'thread': threading.current_thread().name}
     RT.journal.append(ent)
+    ent['nested'] = []
     for act in step.get('pre', ()):
-        _perform(target, act, None)
+        _perform(target, act, ent['nested'])
     if RT.mode == 'replay':
         v = Orig(fname)
         ent['ret'] = v
@@ -317,6 +324,9 @@ def _perform(target, step, obs):
     elif do == 'val':
         if obs is not None:
             obs.append(['ret', mkval(step['v'])])
+    elif do == 'mut':
+        if obs:
+            mutate(obs[-1][1])
     elif do == 'raise':
         raise EXC[step['exc']]('mid')
     elif do == 'intr':
@@ -353,6 +363,22 @@ def _perform(target, step, obs):
         raise ValueError(do)
 
 
+def mutate(v):
+    """In-place mutation of the first mutable node of v (what service code may do to a value it received)."""
+    from mc.refeq import mutable_nodes
+    for n in mutable_nodes(v):
+        if isinstance(n, list):
+            n.append('MUT')
+        elif isinstance(n, dict):
+            n['MUT'] = 1
+        elif isinstance(n, set):
+            n.add('MUT')
+        else:
+            n.MUT = 1
+        return True
+    return False
+
+
 def _call(target, step, obs):
     spec = RT.funcs[step['fn']]
     args = [mkval(n) for n in step.get('a', ())]
@@ -376,6 +402,8 @@ def _call(target, step, obs):
             obs.append(['ret', r])
     except Exception as e:
         rec['exc'] = e
+        if step.get('nocatch'):
+            raise
         if obs is not None:
             obs.append(['exc', type(e).__name__])
     except BaseException as e:
@@ -621,7 +649,10 @@ def ref(prog, enabled=True, draw=None, save_raises=False, funcs=None):
             R['ticks'] += step['d']
         elif do == 'val':
             if obs is not None:
-                obs.append(('ret', canon(mkval(step['v']))))
+                obs.append(['ret', mkval(step['v'])])
+        elif do == 'mut':
+            if obs:
+                mutate(obs[-1][1])
         elif do == 'thr':  # a joined worker thread: its own (clear) interception flag, everything else shared
             for s2 in step['steps']:
                 act(s2, obs, False)
@@ -689,7 +720,7 @@ def ref(prog, enabled=True, draw=None, save_raises=False, funcs=None):
                 if out == ('v', 'UNENCODABLE'):
                     R['unser'] = True
         if obs is not None:
-            obs.append(('ret', canon(mkval(out[1])) if out[1] != 'UNENCODABLE' else 'UNENCODABLE') if out[0] == 'v' else ('exc', out[1]))
+            obs.append(['ret', mkval(out[1]) if out[1] != 'UNENCODABLE' else Unencodable()] if out[0] == 'v' else ['exc', out[1]])
 
     obs = []
     try:
@@ -701,7 +732,7 @@ def ref(prog, enabled=True, draw=None, save_raises=False, funcs=None):
         if end == 'ret':
             R['outcome'] = ('ret',)
             if st['active']:
-                R['op'] = ('v', tuple(obs))
+                R['op'] = ('v', obs_canon(obs))
         else:
             raise _RefExc(end.split(':')[1])
     except _RefExc as e:
@@ -710,7 +741,7 @@ def ref(prog, enabled=True, draw=None, save_raises=False, funcs=None):
             R['op'] = ('eform' if e.args[0] == 'Unser' else 'e', EXC[e.args[0]].__name__)
     except _RefIntr:
         R['outcome'] = ('raise', 'Interrupt')
-    R['obs'] = tuple(obs)
+    R['obs'] = obs_canon(obs)
     if started:
         if R['discarded']:
             R['final'] = 'aborted'
@@ -749,23 +780,34 @@ def ref_replay(R, prog2, funcs=None):
     fs.update(prog2.get('funcs') or {})
     fs.update(funcs or {})
     counter = Counter()
-    out = {'outputs': {}, 'bodies': [], 'op': None, 'obs': None, 'outcome': None}
+    out = {'outputs': {}, 'bodies': [], 'op': None, 'obs': None, 'outcome': None, 'nested': []}
     obs = []
+    cur = [obs]
+
+    class _Escape(Exception):
+        pass
 
     def val(o):
         if o[0] == 'e':
-            return ('exc', o[1])
+            return ['exc', o[1]]
         if o[1] == 'UNENCODABLE':
-            return ('ret', 'UNENCODABLE')
-        return ('ret', canon(mkval(o[1])))
+            return ['ret', Unencodable()]
+        return ['ret', mkval(o[1])]
 
     def call(step):
+        obs = cur[-1]
+        n0 = len(obs)
+        call1(step, obs)
+        if step.get('nocatch') and len(obs) > n0 and obs[-1][0] == 'exc':
+            raise _Escape(obs.pop()[1])
+
+    def call1(step, obs):
         spec = fs[step['fn']]
         args = [mkval(n) for n in step.get('a', ())]
         kw = {k: mkval(n) for k, n in step.get('k', {}).items()}
         if spec['t'] == 'in':
             if step.get('fault') == 'key' and spec['style'] != 'prop' and spec.get('capture', None) != []:
-                obs.append(('exc', 'InputInterceptionKeyCreationError'))
+                obs.append(['exc', 'InputInterceptionKeyCreationError'])
                 return
             alias = spec['alias'].format(id=step.get('ident', 'A')) if spec.get('resolver') else spec['alias']
             fb = spec.get('fallback', [])
@@ -777,13 +819,22 @@ def ref_replay(R, prog2, funcs=None):
                     return
             if spec.get('run_orig'):
                 out['bodies'].append(step['fn'])
-                obs.append(('ret', canon(Orig(step['fn']))))
+                nested = []
+                cur.append(nested)
+                try:
+                    for a in step.get('pre', ()):
+                        if a.get('do') is None:
+                            call(a)
+                finally:
+                    cur.pop()
+                out['nested'].append(obs_canon(nested))
+                obs.append(['ret', Orig(step['fn'])])
                 return
             if 'missing' in spec:
                 m = spec['missing']
-                obs.append(('ret', canon(mkval(m['call'] if isinstance(m, dict) else m))))
+                obs.append(['ret', mkval(m['call'] if isinstance(m, dict) else m)])
                 return
-            obs.append(('exc', 'RecordingKeyError'))
+            obs.append(['exc', 'RecordingKeyError'])
         else:
             counter[spec['alias']] += 1
             n = counter[spec['alias']]
@@ -792,9 +843,9 @@ def ref_replay(R, prog2, funcs=None):
             if (spec['alias'], n) in R['results']:
                 obs.append(val(R['results'][(spec['alias'], n)]))
             elif spec.get('fail', True):
-                obs.append(('exc', 'RecordingKeyError'))
+                obs.append(['exc', 'RecordingKeyError'])
             else:
-                obs.append(('ret', canon(mkval(spec['default']) if 'default' in spec else None)))
+                obs.append(['ret', mkval(spec['default']) if 'default' in spec else None])
 
     try:
         for s in prog2['steps']:
@@ -802,7 +853,10 @@ def ref_replay(R, prog2, funcs=None):
             if do is None:
                 call(s)
             elif do == 'val':
-                obs.append(('ret', canon(mkval(s['v']))))
+                obs.append(['ret', mkval(s['v'])])
+            elif do == 'mut':
+                if obs:
+                    mutate(obs[-1][1])
             elif do == 'thr':
                 for s2 in s['steps']:
                     call(s2)
@@ -815,14 +869,16 @@ def ref_replay(R, prog2, funcs=None):
             raise _RefIntr()
         if end != 'ret':
             raise _RefExc(end.split(':')[1])
-        out['op'] = ('v', tuple(obs))
+        out['op'] = ('v', obs_canon(obs))
         out['outcome'] = ('ret',)
     except _RefExc as e:
         out['op'] = ('eform' if e.args[0] == 'Unser' else 'e', EXC[e.args[0]].__name__)
         out['outcome'] = ('raise', EXC[e.args[0]].__name__)
     except _RefIntr:
         out['outcome'] = ('raise', 'Interrupt')
-    out['obs'] = tuple(obs)
+    except _Escape as e:
+        out['outcome'] = ('escape', e.args[0])   # a framework error the service did not catch leaves play()
+    out['obs'] = obs_canon(obs)
     return out
 
 
